@@ -53,6 +53,7 @@ CountSites(d) ==
         : i \in UsedSurfs(d) }
 (* an unknown mnemonic *)
 MnemonicSites(d) == { Site("mnemonic", "surface", v, i, 0) : i \in UsedSurfs(d), v \in {"qx", "boxx"} }
+                    \cup { Site("mnemonic", "surface", "suffix", i, 0) : i \in { j \in UsedSurfs(d) : Len(d.surfs[j].k) = 3 } }
 (* a facet index beyond the body's facets (macrobodies only: the property speaks of bodies; the converter *)
 (* accepts a facet suffix on an ordinary surface that it writes as two TRIPOLI-4 surfaces)               *)
 FacetSites(d) ==
